@@ -185,15 +185,19 @@ Definition traced_eqb (a b : traced) : bool :=
   let '(k2, p2, q2) := b in
   Nat.eqb (opk_code k1) (opk_code k2) && path_eqb p1 p2 && path_eqb q1 q2.
 
-(* case = (K, schedule, prior tree, config, assignment, real final tree, real trace);
+(* case = (compare trees?, compare traces?, K, schedule, prior tree, config, assignment,
+           real final tree, real trace);
    result = (the model returns normally, final trees agree, traces agree) *)
 Definition packF_check
-  (case : nat * list (option fault) * fs * config * assignment * fs * list traced)
+  (case : bool * bool * nat * list (option fault) * fs * config * assignment * fs * list traced)
   : bool * bool * bool :=
-  let '(K, sched, f0, cfg, asg, real_final, real_trace) := case in
+  let '(cmp_tree, cmp_trace, K, sched, f0, cfg, asg, real_final, real_trace) := case in
+  let chk (s : fstate) :=
+    (negb cmp_tree || fs_eqb (st_fs s) real_final,
+     negb cmp_trace || list_eqb traced_eqb (rev (st_trace s)) real_trace) in
   match packF K sched f0 cfg asg with
-  | OK _ s => (true, fs_eqb (st_fs s) real_final, list_eqb traced_eqb (rev (st_trace s)) real_trace)
-  | Err s => (false, fs_eqb (st_fs s) real_final, list_eqb traced_eqb (rev (st_trace s)) real_trace)
+  | OK _ s => (true, fst (chk s), snd (chk s))
+  | Err s => (false, fst (chk s), snd (chk s))
   end.
 
 (* the trace of the model run, oldest call first (for messages) *)
